@@ -17,6 +17,8 @@ import (
 	"time"
 	"fmt"
 	"os"
+	"os/exec"
+	"path/filepath"
 	"runtime"
 	"sort"
 	"strings"
@@ -70,6 +72,8 @@ var scens = []scen{
 	{"rdb-v2: query x partial reload", dnsfix.RDBv2, false, false, [][]string{{"q"}, {"reload-partial"}}, [2]int{1, 2}},
 	{"rdb-v2: 2 queries (cache on) x partial reload", dnsfix.RDBv2, true, false, [][]string{{"q", "q2"}, {"reload-partial"}}, [2]int{1, 2}},
 	{"rdb-v2: 2 queries x shutdown", dnsfix.RDBv2, false, false, [][]string{{"q", "q2"}, {"shutdown"}}, [2]int{2, 3}},
+	{"rdb-v2: stats export x shutdown", dnsfix.RDBv2, false, false, [][]string{{"stats"}, {"shutdown"}}, [2]int{1, 2}},
+	{"cdb: stats export x query x shutdown", dnsfix.CDB, false, false, [][]string{{"stats"}, {"q"}, {"shutdown"}}, [2]int{1, 2}},
 	{"rdb-v2: stats export x partial reload (real metrics)", dnsfix.RDBv2, false, true, [][]string{{"stats"}, {"reload-partial"}}, [2]int{1, 2}},
 }
 
@@ -201,6 +205,7 @@ func main() {
 	idx, n, isShard := r.Shard()
 	if !isShard {
 		r.ForkShards(len(scens))
+		raceSupplement(r, dir)
 	} else {
 		for _, b := range []dnsfix.Backend{dnsfix.CDB, dnsfix.RDBv2} {
 			var pp [2]string
@@ -267,9 +272,11 @@ func main() {
 	r.Set("evaluations", r.Int("schedule_executions"))
 	r.Set("traces_validated_against_impl", r.Int("schedule_executions"))
 	r.Set("distinct_nontrivial", r.Int("schedule_distinct_states"))
-	r.Set("watch_list", "rdb.IteratorPool.enabled; dnsserver.FBDNSDB.dnsdb, FBDNSDB.cacheGen, DBConfig.Path; db.DB.refCount, DB.destroyable; metrics.Stats.values, Stats.windows, slidingWindow.samples")
-	r.Set("rule", "every interleaving within the per-scenario preemption bound of the listed thread sets on the real instrumented handler over real CDB / RocksDB(v2, secondary) backends opened inside each execution; on each execution: vector-clock happens-before race check of every read/write of the watch-listed fields (edges from locks, channels, wait groups, goroutine start/join only), deadlock and panic detection; states = distinct state signatures, nontrivial = the same (every explored state has at least two live threads)")
-	r.Assume = []string{"only the watch-listed fields are race-checked; accesses inside third-party code, cgo wrappers and RocksDB are not (no free-running -race pass is part of the verdict)",
+	r.Set("watch_list", "scheduling-point watch-list (thorough): rdb.IteratorPool.enabled; dnsserver.FBDNSDB.dnsdb, FBDNSDB.cacheGen, DBConfig.Path; db.DB.refCount, DB.destroyable; metrics.Stats.values, Stats.windows, slidingWindow.samples. Blanket happens-before events (no scheduling point): every addressable struct field of a type declared in the module, every package-level variable of the module, every local captured by a function literal, every slice/array element access x[i], the backing-array writes of append/copy, every map read/write, in packages db, dnsserver, dnsdata, dnsdata/rdb, dnsdata/cdb, metrics")
+	r.Set("rule", "every interleaving within the per-scenario preemption bound of the listed thread sets (query x query, query x same query with the cache on, unusual queries - a type never asked before in this process, a non-existent name, a name below a delegation - x unusual queries with real metrics, queries x full reload, x partial reload, x shutdown, x statistics export) on the real instrumented handler over real CDB / RocksDB(v2, secondary) backends opened inside each execution; on each execution: vector-clock happens-before race check (edges from locks, channels, wait groups, sync.Pool, sync.Once, the LRU's internal lock, goroutine start/join only - the scheduler's own hand-offs are not edges) of every access the blanket instrumentation records, deadlock and panic detection, and use-after-close / double close of the real backend (recorded by a tracking wrapper instead of executed: on the real backend it is a crash of the process); states = distinct state signatures, nontrivial = the same (every explored state has at least two live threads)")
+	r.Assume = []string{"race-checked are the accesses the instrumenter can see in the six instrumented packages: struct fields, package variables, captured locals, slice/array elements indexed in those packages, append/copy, maps; accesses made inside third-party code, the cgo wrappers and RocksDB (and through slices handed to library functions) are not (no free-running -race pass is part of the verdict)",
+		"the happens-before check is per explored schedule: a race whose two accesses are ordered by an unrelated lock in every explored schedule is not reported (preemption bound)",
+		"package-level state of the code under test survives from one execution to the next in a shard process (unusual queries use a type no earlier execution asked for)",
 		"weak-memory behaviours beyond data-race-freedom are not modelled", "schedules beyond the preemption bound are not covered"}
 	r.Finish()
 }
@@ -302,4 +309,104 @@ func init() {
 			os.Exit(3)
 		}()
 	}
+}
+
+// raceSupplement runs the free-running -race build of the same kinds of thread sets (harness/c14_race) and
+// turns what the Go race detector wrote, or a crash of that process, into violations. It samples the runtime's
+// schedules: it can add true reports, it never decides that the property holds.
+func raceSupplement(r *vlib.Run, dir string) {
+	bin := os.Getenv("VERIF_AUX_RACE")
+	if bin == "" {
+		vlib.Infra("auxiliary binary c14_race was not built (VERIF_AUX_RACE unset)")
+	}
+	rdir := filepath.Join(dir, "race")
+	os.MkdirAll(rdir, 0o755)
+	iters := "12"
+	if r.Thorough() {
+		iters = "100"
+	}
+	cmd := exec.Command(bin, rdir, iters)
+	cmd.Env = append(os.Environ(), "GORACE=log_path="+filepath.Join(rdir, "report")+" exitcode=0 history_size=5", "TMPDIR="+rdir)
+	out, err := cmd.CombinedOutput()
+	reports := 0
+	files, _ := filepath.Glob(filepath.Join(rdir, "report.*"))
+	sort.Strings(files)
+	for _, f := range files {
+		b, _ := os.ReadFile(f)
+		for _, rep := range strings.Split(string(b), "==================") {
+			if !strings.Contains(rep, "WARNING: DATA RACE") {
+				continue
+			}
+			reports++
+			fp := "race-detector/" + raceFrames(rep)
+			if !r.Has(fp) {
+				r.Violate(fp, "Go race detector, free-running run of the uninstrumented code:\n"+clip(rep, 4000), map[string]interface{}{"part": "race-supplement", "report": clip(rep, 8000)})
+			}
+		}
+	}
+	if err != nil {
+		o := string(out)
+		if strings.Contains(o, "INFRA-ERROR") {
+			vlib.Infra("c14_race: %s", clip(o, 2000))
+		}
+		fp := "crash/" + crashFrame(o)
+		r.Violate(fp, "the free-running run of the uninstrumented code crashed ("+err.Error()+"):\n"+clip(o, 4000), map[string]interface{}{"part": "race-supplement", "output": clip(o, 8000)})
+	}
+	r.Set("race_supplement_iterations_per_configuration", iters)
+	r.Set("race_supplement_reports", reports)
+	r.Note("free-running -race supplement: 2 backends x cache off/on x %s iterations of {3 query threads, reload (full/partial alternating), statistics export, shutdown every third iteration} on the uninstrumented code; reports of the Go race detector: %d", iters, reports)
+}
+
+func clip(s string, n int) string {
+	if len(s) > n {
+		return s[:n] + "..."
+	}
+	return s
+}
+
+// raceFrames names a race report by the first repository (or other non-runtime) function of each of its two stacks.
+func raceFrames(rep string) string {
+	var tops []string
+	lines := strings.Split(rep, "\n")
+	for i, l := range lines {
+		t := strings.TrimSpace(l)
+		if (strings.HasPrefix(t, "Read at") || strings.HasPrefix(t, "Write at") || strings.HasPrefix(t, "Previous read at") || strings.HasPrefix(t, "Previous write at")) && len(tops) < 2 {
+			for _, m := range lines[i+1:] {
+				m = strings.TrimSpace(m)
+				if m == "" {
+					break
+				}
+				if strings.HasPrefix(m, "runtime.") || strings.HasPrefix(m, "/") || strings.HasPrefix(m, "sync.") {
+					continue
+				}
+				if j := strings.IndexByte(m, '('); j > 0 {
+					m = m[:j]
+				}
+				tops = append(tops, m)
+				break
+			}
+		}
+	}
+	return strings.Join(tops, "|")
+}
+
+// crashFrame names a crash by its signal/fatal line and the first repository frame.
+func crashFrame(out string) string {
+	head, frame := "", ""
+	for _, l := range strings.Split(out, "\n") {
+		t := strings.TrimSpace(l)
+		if head == "" && (strings.HasPrefix(t, "SIGSEGV") || strings.HasPrefix(t, "fatal error") || strings.HasPrefix(t, "panic:") || strings.HasPrefix(t, "SIGABRT") || strings.HasPrefix(t, "SIGBUS")) {
+			head = t
+		}
+		if frame == "" && strings.HasPrefix(t, "github.com/facebookincubator/dns/dnsrocks/") && !strings.Contains(t, "cgo-rocksdb._Cfunc") {
+			if j := strings.IndexByte(t, '('); j > 0 {
+				t = t[:j]
+			}
+			frame = strings.TrimPrefix(t, "github.com/facebookincubator/dns/dnsrocks/")
+		}
+	}
+	if len(head) > 60 {
+		head = head[:60]
+	}
+	return head + "/" + frame
 }
